@@ -232,10 +232,14 @@ DotTouchFold(dd, ns, pp, acc) ==
     IF ns = <<>> \/ ~Running(pp) THEN acc
     ELSE DotTouchFold(dd, Tail(ns), FilterOne(dd, Head(ns), pp),
                       IF dd.handler = "umn" /\ IsDot(Head(ns)) /\ ~Ignored(dd, Head(ns)) THEN Append(acc, Head(ns)) ELSE acc)
+RECURSIVE FirstOccurrences(_, _)
+FirstOccurrences(s, acc) == IF s = <<>> THEN acc
+                            ELSE FirstOccurrences(Tail(s), IF Head(s) \in Range(acc) THEN acc ELSE Append(acc, Head(s)))
+\* the order in which the children are FIRST inspected
 PredictedTouchesM(dd, o, se) ==
     LET p1 == FilterFold(dd, EnumSeenM(o, se), P0)
         p2 == SortNamesOp(p1)
-    IN TouchFold(dd, p2.files, p2, DotTouchFold(dd, EnumSeenM(o, se), P0, <<>>))
+    IN FirstOccurrences(TouchFold(dd, p2.files, p2, DotTouchFold(dd, EnumSeenM(o, se), P0, <<>>)), <<>>)
 PredictedTouches(dd, o) == PredictedTouchesM(dd, o, SortedEnum)
 
 \* design-level expectation of the trace specifications: what the code does is what the model of the
